@@ -27,6 +27,7 @@ UNITS = {
     "u27_hydrate_list": {"verus": "specs/u27_hydrate_list.vt.rs"},
     "u28_valuemeta": {"verus": "specs/u28_valuemeta.vt.rs"},
     "u29_hexane_prefix": {"verus": "specs/u29_hexane_prefix.vt.rs"},
+    "u30_legacy_rle": {"verus": "specs/u30_legacy_rle.vt.rs"},
 }
 CHUNK = "rust/automerge/src/storage/chunk.rs"
 EXID = "rust/automerge/src/exid.rs"
@@ -126,6 +127,8 @@ HARNESSES = {
                                   "bound": "all string values of <= 3 raw bytes, any declared metadata length"},
     "u17_from_raw_string_valid_t": {"crate": "automerge", "file": "rust/automerge/src/op_set2/types.rs", "fn": "ScalarValue::from_raw (string arm)", "mode": "bounded",
                                     "bound": "all string values of <= 4 raw bytes, any declared metadata length", "tier": "thorough"},
+    "u30_legacy_rle_step_total": {"crate": "automerge", "file": "rust/automerge/src/columnar/encoding/rle.rs", "fn": "RleDecoder::try_next (legacy change-chunk column decoder)", "mode": "bounded", "timeout_s": 900,
+                                  "bound": "every 10-byte run header (9 continuation bytes + final byte, all payload bits symbolic) followed by two arbitrary bytes, one step"},
     "u15_raw_read_bytes": {"crate": "automerge", "file": "rust/automerge/src/columnar/encoding/raw.rs", "fn": "RawDecoder::read_bytes", "mode": "bounded",
                            "bound": "8-byte buffer, every offset inside it, every length < 2^60 (the range of a value-metadata length)"},
     # ---- U12 range normalisation
@@ -264,7 +267,7 @@ PROPERTIES.update({
     "C15": {
         "level": "proof",
         "verus": [("u02_parse", "*"), ("u01_bloom", ["parse", "get_probes", "contains_hash", "add_hash", "set_bit"]), ("u04_ids", ["exid_to_opid", "op_cursor_to_opid", "new"]),
-                  ("u04c_codecs", ["try_from", "parse_0"]), ("u06v_hexane_str", "*"), ("u15_colids", ["try_next", "try_load", "new", "root", "from"]), ("u19_import", "*"), ("u28_valuemeta", "*"), ("u29_hexane_prefix", "*")],
+                  ("u04c_codecs", ["try_from", "parse_0"]), ("u06v_hexane_str", "*"), ("u15_colids", ["try_next", "try_load", "new", "root", "from"]), ("u19_import", "*"), ("u28_valuemeta", "*"), ("u29_hexane_prefix", "*"), ("u30_legacy_rle", "*")],
         "kani": ["u04_changehash_try_from_slice", "u15_try_load_total", "u15_raw_read_bytes", "u17_from_raw_string_valid", "u02k_length_prefixed_total", "u02k_apply_n_total", "u06_codec_reads_agree", "u01_parse_wf_quick", "u01_parse_wf_thorough", "u01_query_total", "u03_header_parse_q", "u03_header_parse_t", "u03_chunktype_codes",
                  "u04_exid_try_from_total_q", "u04_exid_try_from_total_t", "u04_cursor_from_str_total_q",
                  "u05_flags_parse_bytes",
